@@ -233,11 +233,71 @@ PROPS.update({
     },
 })
 
+def K(h, what, pairs=(), grade="K", tiers=("quick", "thorough")):
+    return {"harness": h, "what": what, "pairs": list(pairs), "grade": grade, "tiers": list(tiers)}
+
+
+K_CDS = K("k_check_delta_status", "check_delta_status equals the admission rule for all u64 frontiers and delta headers (real crate)", ["NodeState::check_delta_status"])
+K_TSH = K("k_try_set_heartbeat", "try_set_heartbeat: true iff non-zero stored value and strictly greater argument; stored value; frame (all u64)", ["NodeState::try_set_heartbeat"])
+K_HBC = K("k_heartbeat_cmp", "derived comparisons on Heartbeat compare the field (A-derive cross-check)")
+K_LSN = K("k_trigger_event_utf8_keys", "InnerListeners::trigger_event with an empty registry does not panic on any UTF-8 key of <= 4 bytes")
+PROPS["C04"]["kani"] = [K_CDS]
+PROPS["C14"]["kani"] = [K_CDS]
+PROPS["C11"]["kani"] = [K_TSH, K_HBC]
+PROPS["C03"]["kani"] = [K_TSH]
+PROPS["C09"]["kani"] = [K_LSN]
+PROPS["C15"]["kani"] = [K_LSN]
+A_KANI = "Kani harnesses replace the `tracing` dependency by a no-op crate (kani-compiler ICE on the real macros), stub alloc::fmt::format and Backtrace::capture on error paths and forget anyhow errors instead of dropping them; none of these carries program state"
+for _p in ("C04", "C14", "C11", "C03", "C09", "C15"):
+    PROPS[_p]["assumptions"].append(A_KANI)
+PROPS["C15"]["level"] = "proof"
+PROPS["C15"]["level_text"] = "Proved (Kani, real crate, complete over the stated domain): InnerListeners::trigger_event with an empty registry does not panic for any UTF-8 key of at most 4 bytes (every first-character width). Everything else is bounded only: prefix matching is string reasoning neither verifier does, and the dispatch iterates BTreeMap::range / HashMap::values over boxed closures (Kani cannot build the registry: BTreeMap::insert). The real Listeners::trigger_event is run on all keys of <= 3 symbols over {a, b, é, 🦀} against every single prefix and against prefix sets of size 2..8 with dropped and forever handles, and compared with str::strip_prefix; the trigger condition in set_versioned_value (accepted and not Deleted) is part of svv_contract."
+PROPS["C15"]["level_note"] = "Only the panic-freedom obligation is a proof; 'exactly the matching subscriptions are called once' is a bounded check over the property's own exhaustive scope and is labelled so. The finding F-2 it exposed is repaired (known_findings.json)."
+PROPS["C15"]["technique"] = "Kani proof of panic-freedom of the real dispatch entry (all short UTF-8 keys) + bounded native enumeration against str::strip_prefix"
+
+PROPS.update({
+    "C08": {
+        "level": "proof",
+        "verus": [{"unit": U2, "fns": ["BlockType::serialize", "BlockType::serialized_len", "CompressedStreamWriter::finish", "DeltaSerializer::finish"]}],
+        "native": [{"test": "verif_c08_messages", "pairs": []}, N_C14],
+        "kani": [K("k_rt_u8", "u8 round trip, exact length, layout"), K("k_rt_u16", "u16 round trip, little-endian layout"), K("k_rt_u32", "u32 round trip, layout"),
+                 K("k_rt_u64", "u64 round trip, layout"), K("k_rt_bool", "bool round trip; every byte decodes"), K("k_rt_heartbeat", "Heartbeat round trip"),
+                 K("k_rt_ipv4", "IPv4 round trip, tag 4 + octets"), K("k_rt_ipv6", "IPv6 round trip, tag 6 + octets"), K("k_rt_socket_addr", "SocketAddr round trip (v4 and v6)"),
+                 K("k_dec_ip_any_bytes", "every 17-byte string decodes as an IP address or fails cleanly; consumed length = announced length"),
+                 K("k_block_type_codes", "BlockType: exactly codes 0..2 decode, re-encode to the same byte"), K("k_dec_short_buffers", "fixed-width decoders fail cleanly on short buffers"),
+                 K("k_deletion_status_codes", "DeletionStatusMutation: exactly codes 0..2, round trip"), K("k_status_conversions", "status <-> wire code conversions keep the kind"),
+                 K("k_rt_node_digest", "NodeDigest round trip, field order heartbeat/last_gc/max_version"), K("k_message_type_codes", "message type / protocol version codes"),
+                 K("k_bad_cluster_roundtrip", "BadCluster is the 4-byte header"), K("k_delta_op_tag_codes", "op tags: exactly 0..2"),
+                 K("k_len_set_max_version", "SetMaxVersion op: 9 bytes, tag 2 + u64 LE, round trip")],
+        "assumptions": [A_STD, A_ZSTD, A_KANI, A_TEST_CFG],
+        "level_text": "Proved by Kani on the real crate, loop-free over the full domain (hence complete, not bounded): for u8/u16/u32/u64/bool/Heartbeat/IpAddr/SocketAddr/NodeDigest/DeletionStatusMutation/BlockType/DeltaOpTag/MessageType/ProtocolVersion and the SetMaxVersion op, deserialize(serialize(x)) = x consuming exactly serialized_len(x) bytes, the bytes follow the documented little-endian / tag layout, and invalid tags or short buffers are errors, not panics. Proved by Verus: the stream writer's finish returns at least the end tag and DeltaSerializer::finish announces exactly the finished buffer's length.",
+        "level_note": "Variable-length composites (String, ChitchatId, KeyValueMutation, DeltaOp Node/KeyValue, Digest, Delta with real zstd incl. multi-block and uncompressed blocks, whole ChitchatMessage) are outside both verifiers (str byte reasoning, BTreeMap iteration, FFI): bounded driver c08_messages compares the real encoder with an independent decoder and five block layouts of an independent encoder with the real decoder over the property's length classes (0,1,255,256,16383..16385,65535), IPv4/IPv6, multi-byte ids, every status, empty members, SetMaxVersion tails. delta.rs:227 (recorded length == payload length) is exercised there and in c14_scope/c07_window, not proved.",
+        "technique": "Kani complete proofs of the fixed-width codecs on the real crate; bounded native differential check against an independent codec for composites",
+        "explanation": "",
+        "design_ref": "DESIGN.md §7 C08",
+    },
+    "C17": {
+        "level": "proof",
+        "verus": [],
+        "native": [],
+        "kani": [],
+        "kani_files": [{"unit": "k6_select", "args": ["--no-overflow-checks"],
+                        "harnesses": [{"name": "k_select_structure", "what": "at most 3 distinct peers from live (or all peers when none is live); dead from the dead set; seed from the seed set; no panic"},
+                                      {"name": "k_select_forced", "what": "no live peer and a seed exists => seed contacted; dead outnumber live => dead contacted; empty dead/seed set => None", "timeout": 2400}]}],
+        "assumptions": ["A-rand: IteratorRandom::choose returns Some(member) iff the iterator is non-empty; sample(rng, k) returns min(k, size) distinct members; Rng::random::<f64>() is a multiple of 2^-53 in [0,1) (prelude of units/k6_select.krs)",
+                        "sets are abstract: sizes symbolic < 2^20, membership of an address in another pool is arbitrary (pools may overlap arbitrarily)",
+                        "CBMC's extra float checks (NaN on 0/0) are switched off with --no-overflow-checks: 0/0 is NaN in Rust, compares false and is not a panic; Rust's own overflow / bounds / unwrap panics stay checked"],
+        "level_text": "The three selection functions of server.rs are copied verbatim from /repo on every run into a stand-alone Kani file whose prelude replaces HashSet / IteratorRandom / Rng by nondeterministic stubs obeying A-rand; CBMC proves, for all set sizes < 2^20 and all RNG outputs (floating point bit-precise, the loop over <= 3 sampled nodes fully unwound with unwinding assertions): at most three distinct peers from the live pool (or all peers when none is live), the dead / seed peer comes from its set, a seed is always contacted when no live peer is known and a seed exists, a dead peer is always contacted when dead peers outnumber live ones, no panic.",
+        "level_note": "The pools themselves (built in gossip_multiple from the cluster state with self filtered) are async glue outside the technique; the stubs' contracts for rand are assumptions. Sizes are bounded by 2^20 (stated), the selection loop bound 3 is the code's own GOSSIP_COUNT, checked by unwinding assertions.",
+        "technique": "Kani/CBMC on mechanically extracted function text with contract stubs for externals",
+        "explanation": "",
+        "design_ref": "DESIGN.md §7 C17",
+    },
+})
+
 NOT_APPLICABLE = {
     "C01": "liveness over unbounded multi-node histories under fairness; no contract on one call expresses 'within a bounded number of handshakes' (its per-handshake progress sentence is decided under C14: lemma_agree + lemma_admitted_strictly_advances)",
     "C13": "the whole body of update_nodes_liveness is iterator/closure chains over HashMap/BTreeMap feeding a tokio watch channel: Verus cannot take it and Kani cannot build the collections, so no deductive obligation can be generated; a bounded run alone would be testing, a different family",
     "C19": "async select loop, channels, lock ordering and shutdown liveness: concurrency and whole-history behaviour that neither Verus nor Kani models",
-    "C08": "not yet claimed: codec contracts (U3b) and Kani round-trip harnesses are under construction",
     "C16": "not yet claimed: lib.rs unit (U5) under construction",
-    "C17": "not yet claimed: peer-selection Kani unit (U6) under construction",
 }
